@@ -38,7 +38,10 @@ RandAnn(x) ==
     \* the same, but the packet's additional section also carries records of foreign names (a host, an
     \* instance of another service, the service name itself): they must not leak into the reported instance
     [] die <= 7 -> [kind |-> "instance+foreign", service |-> Watched, inst |-> RandInst(x)]
-    [] die = 8 -> [kind |-> "instance", service |-> Other, inst |-> RandInst(x)]
+    [] die = 8 -> IF RandomElement({0, 1}) = 0 THEN [kind |-> "instance", service |-> Other, inst |-> RandInst(x)]
+                  \* the peer says goodbye (its records with TTL 0 / with the cache-flush bit) and then announces the
+                  \* same instance again: it was advertised last, so it must be reported
+                  ELSE [kind |-> RandomElement({"goodbye-then-instance", "flush-then-instance"}), service |-> Watched, inst |-> RandInst(x)]
     [] die = 9 -> [kind |-> "service-ptr", service |-> Watched, inst |-> RandInst(x)]
     [] OTHER -> [kind |-> "unrelated", service |-> Watched, inst |-> RandInst(x)]
 
